@@ -196,9 +196,15 @@ def safe_to_delete_node(h, n):
     return n != h.root and not h.children(n)
 
 
+SRC_KINDS = ("add_node", "add_link", "add_order", "delete_node", "delete_link")
+
+
 def apply_mut(h, m):
     """Applies one mutation if it is applicable (its node arguments are live, delete_node inside the guard).
-    Returns None if it was not applied, "ok" if the call returned, the exception class name if it raised."""
+    Returns (None, m) if it was not applied, else (outcome, mutation as applied): outcome "ok" if the call
+    returned, the exception class name if it raised.  An insert carries the history of the inserted HUGR; the
+    calls of it that were applicable are what the applied form records."""
+    from hugr.hugr import Hugr
     live = {n.idx: n for n in h}
     k = m[0]
     call = None
@@ -224,25 +230,32 @@ def apply_mut(h, m):
     elif k == "set_md":
         _, n, key, v = m
         if n in live:
-            call = lambda: h[live[n]].metadata.__setitem__(key, v)
+            call = lambda: h[live[n]].metadata.__setitem__(key, copy.deepcopy(v))
+    elif k == "insert":
+        _, rootspec, src, parent = m
+        if parent in live:
+            b = Hugr(mk_mut_op(rootspec))
+            src_applied, _ = run_muts(b, [x for x in src if x[0] in SRC_KINDS])
+            m = ["insert", rootspec, src_applied, parent]
+            call = lambda: h.insert_hugr(b, live[parent])
     else:
         raise ValueError(m)
     if call is None:
-        return None
+        return None, m
     try:
         call()
     except Exception as e:
-        return type(e).__name__
-    return "ok"
+        return type(e).__name__, m
+    return "ok", m
 
 
 def run_muts(h, muts):
     """-> (applied mutations, outcome of each)"""
     applied, rets = [], []
     for m in muts:
-        r = apply_mut(h, m)
+        r, m2 = apply_mut(h, m)
         if r is not None:
-            applied.append(m)
+            applied.append(m2)
             rets.append(r)
     return applied, rets
 
@@ -255,7 +268,7 @@ def port_counts(h, n):
     return reader_ports(o)
 
 
-def gen_muts(rng, h, n, off_port=False, reuse=False, palette=None):
+def gen_muts(rng, h, n, off_port=False, reuse=False, palette=None, inserts=False, src_only=False):
     """Generates (and applies to h) up to n mutations; -> (mutations applied, outcome of each).  Links are added on
     ports the operations have (unless off_port) so that the premise of C03's addressing clause holds.  Unless
     `reuse`, no node is added once a node has been deleted (histories without index reuse).  delete_node picks any
@@ -279,7 +292,16 @@ def gen_muts(rng, h, n, off_port=False, reuse=False, palette=None):
         nodes = list(h)
         r = rng.random()
         m = None
-        if r < 0.3:
+        if inserts and r < 0.06:
+            if deleted and not reuse:
+                continue
+            # insert_hugr of a HUGR built by its own raw history (without index reuse, links on existing ports)
+            from hugr.hugr import Hugr
+            rootspec = rng.choice(HIST_ROOTS[2:] + [["dfg", [], []]])
+            src, _ = gen_muts(rng, Hugr(mk_mut_op(rootspec)), rng.randint(1, 8), palette=palette, src_only=True)
+            containers = [x for x in nodes if h.children(x) or x == h.root]
+            m = ["insert", rootspec, src, rng.choice(containers if containers and rng.random() < 0.7 else nodes).idx]
+        elif r < 0.3:
             if deleted and not reuse:
                 continue
             containers = [x for x in nodes if h.children(x) or x == h.root]
@@ -322,11 +344,11 @@ def gen_muts(rng, h, n, off_port=False, reuse=False, palette=None):
             if ls:
                 s_, t_ = rng.choice(ls)
                 m = ["delete_link", s_.node.idx, s_.offset, t_.node.idx, t_.offset]
-        else:
+        elif not src_only:
             x = rng.choice(nodes)
             m = ["set_md", x.idx, rng.choice(["k", "x y", "ß"]), rng.choice(MD_VALUES)]
         if m is not None:
-            res = apply_mut(h, m)
+            res, m = apply_mut(h, m)
             if res is not None:
                 muts.append(m)
                 rets.append(res)
@@ -636,44 +658,65 @@ class Lit:
             cache[key] = spec_opcode(spec)
         return self.opinfo(cache[key])
 
-    def cmds(self, start_md, size, applied, rets):
-        """the history as commands of coq/run/C02Run.v.  Metadata assignment passes the whole dictionary after the
-        assignment; it is tracked here from the case data alone (the index of an added node follows the allocation
-        rule: the last freed index, else the next one)."""
-        md = {i: dict(m) for i, m in start_md.items()}
-        free = []
+    @staticmethod
+    def _alloc(sh):
+        if sh["free"]:
+            return sh["free"].pop()
+        sh["size"] += 1
+        return sh["size"] - 1
+
+    def cmds(self, start, applied, rets, basic=False):
+        """The history as commands of coq/run/C02Run.v (basic=True: the calls of an inserted HUGR's own history).
+        Metadata assignment passes the whole dictionary after the assignment, so the metadata (and, for insert_hugr,
+        the parent) of every node is tracked here from the case data alone: `start` = {idx: [metadata, parent]};
+        the index of an added node follows the allocation rule (the last freed index, else the next one), the nodes
+        of an inserted HUGR are added in index order, not yet inserted ancestors first.
+        -> (commands, outcomes, final tracking state)"""
+        sh = {"nodes": {i: [dict(v[0]), v[1]] for i, v in start.items()}, "free": [], "size": (max(start) + 1) if start else 0}
+        A, L, O, DN, DL = ("BAdd", "BLink", "BOrd", "BDelN", "BDelL") if basic else ("HAdd", "HLink", "HOrd", "HDelN", "HDelL")
         out = []
         for m, r in zip(applied, rets):
             k = m[0]
             if k == "add_node":
                 _, spec, parent, mdv, nouts = m
-                out.append("(HAdd %s (Some %d) %s %s)" % (self.spec_opinfo(spec), parent,
+                out.append("(%s %s (Some %d) %s %s)" % (A, self.spec_opinfo(spec), parent,
                            "None" if nouts is None else "(Some %s)" % fw.gZ(nouts), self.mdv(mdv or {})))
                 if r == "ok":
-                    if free:
-                        idx = free.pop()
-                    else:
-                        idx, size = size, size + 1
-                    md[idx] = dict(mdv or {})
+                    sh["nodes"][self._alloc(sh)] = [dict(mdv or {}), parent]
             elif k == "add_link":
-                out.append("(HLink %d %s %d %s)" % (m[1], fw.gZ(m[2]), m[3], fw.gZ(m[4])))
+                out.append("(%s %d %s %d %s)" % (L, m[1], fw.gZ(m[2]), m[3], fw.gZ(m[4])))
             elif k == "add_order":
-                out.append("(HOrd %d %d)" % (m[1], m[2]))
+                out.append("(%s %d %d)" % (O, m[1], m[2]))
             elif k == "delete_node":
-                out.append("(HDelN %d)" % m[1])
+                out.append("(%s %d)" % (DN, m[1]))
                 if r == "ok":
-                    free.append(m[1])
-                    md.pop(m[1], None)
+                    sh["free"].append(m[1])
+                    sh["nodes"].pop(m[1], None)
             elif k == "delete_link":
-                out.append("(HDelL %d %s %d %s)" % (m[1], fw.gZ(m[2]), m[3], fw.gZ(m[4])))
+                out.append("(%s %d %s %d %s)" % (DL, m[1], fw.gZ(m[2]), m[3], fw.gZ(m[4])))
             elif k == "set_md":
                 _, n, key, v = m
-                cur = md.setdefault(n, {})
+                cur = sh["nodes"].setdefault(n, [{}, None])[0]
                 cur[key] = v
                 out.append("(HMeta %d %s)" % (n, self.mdv(cur)))
+            elif k == "insert":
+                _, rootspec, src, parent = m
+                bc, _, bsh = self.cmds({0: [{}, None]}, src, ["ok"] * len(src), basic=True)
+                out.append("(HIns %s %s (Some %d))" % (self.spec_opinfo(rootspec), bc, parent))
+                if r == "ok":
+                    mapping = {}
+                    for n in sorted(bsh["nodes"]):
+                        chain, cur = [], n
+                        while cur is not None and cur not in mapping and cur in bsh["nodes"] and len(chain) <= len(bsh["nodes"]):
+                            chain.append(cur)
+                            cur = bsh["nodes"][cur][1]
+                        for c in reversed(chain):
+                            bp = bsh["nodes"][c][1]
+                            mapping[c] = self._alloc(sh)
+                            sh["nodes"][mapping[c]] = [dict(bsh["nodes"][c][0]), parent if bp is None else mapping.get(bp)]
             else:
                 raise ValueError(m)
-        return glist(out), glist(gbool(r == "ok") for r in rets)
+        return glist(out), glist(gbool(r == "ok") for r in rets), sh
 
     def store(self, start):
         d = start["dump"]
@@ -749,7 +792,9 @@ def history_reuses(muts):
     for m in muts:
         if m[0] == "delete_node":
             deleted = True
-        elif m[0] == "add_node" and deleted:
+        elif m[0] in ("add_node", "insert") and deleted:
+            return True
+        if m[0] == "insert" and history_reuses(m[2]):
             return True
     return False
 
@@ -818,6 +863,15 @@ class RT(fw.Prop):
                 ["add_link", 3, 0, 2, 0], ["delete_link", 1, 0, 3, 0], ["delete_link", 1, 0, 2, 0]]},
             P("order", [["delete_node", 3], ["delete_link", 1, 0, 4, 0]]),
             P("nested_after_const", [["add_link", 1, 0, 4, 0], ["delete_link", 1, 0, 4, 0], ["delete_node", 3], ["add_order", 1, 4]]),
+            # insert_hugr inside a history: the inserted HUGR has a deleted node, a fan-out and an order link
+            {"kind": "hist", "root": ["module"], "muts": [
+                ["add_node", ["dfg", ["B"], ["B", "I"]], 0, {"k": 0}, None],
+                ["insert", ["dfg", ["B"], ["B"]], [["add_node", ["input", ["B", "I"]], 0, None, None],
+                                                   ["add_node", ["not"], 0, {"name": "n"}, None], ["add_node", ["not"], 0, None, None],
+                                                   ["add_node", ["output", ["B"]], 0, None, None], ["add_link", 1, 0, 2, 0],
+                                                   ["add_link", 1, 0, 3, 0], ["add_link", 3, 0, 4, 0], ["add_order", 1, 3],
+                                                   ["delete_node", 2]], 1],
+                ["add_link", 3, 0, 1, 0], ["set_md", 4, "k", "v"], ["delete_node", 5]]},
             # index reuse in a raw history (known D3)
             {"kind": "hist", "root": ["module"], "muts": [
                 ["add_node", ["dfg", [], []], 0, None, None], ["add_node", ["const", ["true"]], 0, None, None],
@@ -875,8 +929,9 @@ class RT(fw.Prop):
         """-> (mutations applied, outcome of each)"""
         if "muts" in case:
             return run_muts(h, copy.deepcopy(case["muts"]))
+        hist = case["kind"] == "hist"
         return gen_muts(random.Random(case["mseed"]), h, case["nmuts"], off_port=case.get("off_port", False),
-                        reuse=case.get("reuse", False), palette=HIST_OPS if case["kind"] == "hist" else MUT_OPS)
+                        reuse=case.get("reuse", False), palette=HIST_OPS if hist else MUT_OPS, inserts=True)
 
     def build(self, case):
         """-> (hugr, mutations applied)"""
@@ -954,13 +1009,13 @@ class RT(fw.Prop):
             return TRIVIAL
         k = case["kind"]
         if k == "hist":
-            cs, rets = L.cmds({0: {}}, 1, obs["muts"], obs["rets"])
+            cs, rets, _ = L.cmds({0: [{}, None]}, obs["muts"], obs["rets"])
             ctx.stats["histories_tied_to_the_store_model"] = ctx.stats.get("histories_tied_to_the_store_model", 0) + 1
             return "(CHist %s %s %s %s)" % (L.spec_opinfo(case["root"]), cs, rets, L.rt(obs))
         if k == "hugr":
             if "start" in obs:
                 d0 = obs["start"]["dump"]
-                cs, rets = L.cmds({n["idx"]: n["md"] for n in d0["nodes"]}, len(d0["nodes"]), obs["muts"], obs["rets"])
+                cs, rets, _ = L.cmds({n["idx"]: [n["md"], n["parent"]] for n in d0["nodes"]}, obs["muts"], obs["rets"])
                 ctx.stats["histories_tied_to_the_store_model"] = ctx.stats.get("histories_tied_to_the_store_model", 0) + 1
                 return "(CMut %s %s %s %s)" % (L.store(obs["start"]), cs, rets, L.rt(obs))
             if obs.get("muts"):
